@@ -198,6 +198,70 @@ def pmode(m):
     return "ForEach, callback fails when %s" % ppred(m["p"])
 
 
+# ---------------------------------------------------------------- list denotation, for replay files only
+# (a third reading of the codes, used to SHOW what was required; the verdict is Coq's Check.C14.oracle)
+def ip(p, v):
+    k = p["k"]
+    return {"lt": v < p.get("c", 0), "ne": v != p.get("c", 0), "par": v % 2 == p.get("c", 0), "true": True, "false": False}[k]
+
+
+def im(m, v):
+    return m.get("a", 0) * v + m.get("b", 0) if m["k"] == "aff" else m.get("a", 0)
+
+
+def ij(j, v):
+    return {"repl": [v] * (v % 3), "range": [v + i for i in range(v % 4)], "nil": []}[j]
+
+
+def pden(t, x=0):
+    o = t["o"]
+    if o == "from":
+        return [t.get("v", 0)]
+    if o == "slice":
+        return list(t.get("xs", []))
+    if o == "arg":
+        return [x]
+    if o == "shift":
+        return [x + y for y in t.get("xs", [])]
+    if o == "plus":
+        return pden(t["l"], x) + pden(t["r"], x)
+    l = pden(t["s"], x)
+    if o == "takew":
+        r = []
+        for v in l:
+            if not ip(t["p"], v):
+                break
+            r.append(v)
+        return r
+    if o == "dropw":
+        i = 0
+        while i < len(l) and ip(t["p"], l[i]):
+            i += 1
+        return l[i:]
+    if o == "filter":
+        return [v for v in l if ip(t["p"], v)]
+    if o == "map":
+        return [im(t["m"], v) for v in l]
+    if o == "join":
+        return [w for v in l for w in ij(t["j"], v)]
+    if o == "joine":
+        return [w for v in l for w in pden(t["b"], v)]
+    raise ValueError(o)
+
+
+def required(c):
+    l = pden(c["expr"])
+    m = c["mode"]
+    if m["k"] == "drain":
+        return l, None
+    for k, v in enumerate(l):
+        if m["k"] == "pos" and k == m.get("n", 0):
+            return l[:k + 1], 7000 + k
+        if m["k"] == "pred" and ip(m["p"], v):
+            return l[:k + 1], v
+    return l, None
+
+
 def size(t):
     return 1 + sum(size(t[k]) for k in ("s", "l", "r", "b") if k in t) + len(t.get("xs", []))
 
@@ -209,6 +273,16 @@ def ops(t, acc=None):
         if k in t:
             ops(t[k], acc)
     return acc
+
+
+def sources(t):
+    if t["o"] == "slice":
+        return [t.get("xs", [])]
+    if t["o"] == "plus":
+        return sources(t["l"]) + sources(t["r"])
+    if t["o"] == "joine":
+        return sources(t["b"]) + sources(t["s"])
+    return sources(t["s"]) if "s" in t else []
 
 
 def nontrivial_key(c):
@@ -226,7 +300,8 @@ def describe(c):
             "returned_error": c.get("err"), "sources_after": c.get("after"), "panicked": c.get("panic", False),
             "why": c.get("why", ""),
             "next_after_exhaustion": c.get("post", []),
-            "required": "the list denotation of the expression (Iter/Model.v den); see ./check --replay"}
+            "required_list": required(c)[0], "required_error": required(c)[1],
+            "required_sources_after": sources(c["expr"])}
 
 
 def sample(c):
